@@ -18,6 +18,9 @@
 (*  FormatFail(e,kind)           FileSet::emit(e) returned; the writer of  *)
 (*                               e failed before ("empty") or after part   *)
 (*                               of its output ("partial")                 *)
+(*  Discard(e)                   FileSet::emit(e) returned on an INERT     *)
+(*                               emitter (reset.inert: its build failed,   *)
+(*                               there is no channel): e is not accepted   *)
 (*  QLen(n)                      the queue_length metric sampled after it  *)
 (*  FlushReq(w) FlushRet(w,ret)  blocking_flush about to be called / done  *)
 (*  Take(n)                      the worker thread took the queue (n items)*)
@@ -69,7 +72,7 @@ evars == <<o, l, sbad, ebad, sid, q, ev>>
 
 Q0(cap) == [cap |-> cap, queue |-> <<>>, batch |-> <<>>, ntrunc |-> 0, sent |-> {}]
 Ev0 == [emitted |-> {}, reqs |-> <<>>, failed |-> {}, dropped |-> {}, stalled |-> FALSE, stallEmits |-> 0,
-        fmtFailed |-> {}]
+        fmtFailed |-> {}, inertDiscarded |-> {}]
 
 EInit == o = ObsInit(1, 1) /\ l = 1 /\ sbad = {} /\ ebad = {} /\ sid = -1 /\ q = Q0(1) /\ ev = Ev0
 
@@ -77,7 +80,7 @@ EVerdict ==
     PrintT(<<"VERDICT", ToJson([sid |-> sid, bad |-> o.bad \cup sbad \cup StateBadOf(o) \cup ebad,
                                 stallEmits |-> ev.stallEmits, ntrunc |-> q.ntrunc,
                                 nfailed |-> Cardinality(ev.failed), nacked |-> Cardinality(o.acked),
-                                nfmt |-> Cardinality(ev.fmtFailed)])>>)
+                                nfmt |-> Cardinality(ev.fmtFailed), ndisc |-> Cardinality(ev.inertDiscarded)])>>)
 
 Suffix(s, n) == IF n >= Len(s) THEN s ELSE SubSeq(s, Len(s) - n + 1, Len(s))
 
@@ -94,7 +97,7 @@ Step(r) ==
                                \cup Flag(r.pushed = 1, "DropsOldestCounted")
                                \cup Flag(Len(q2) <= q.cap /\ r.pending <= q.cap, "QueueBounded")
                                \cup Flag(Len(q2) = r.pending, "QueueModel")
-                               \cup Flag(r.e \notin ev.fmtFailed, "FormatFailDiscarded")
+                               \cup Flag(r.e \notin ev.fmtFailed \cup ev.inertDiscarded, "FormatFailDiscarded")
                /\ UNCHANGED o
       [] r.ev = "Emit" ->
             /\ ev' = [ev EXCEPT !.emitted = @ \cup {r.e},
@@ -102,6 +105,12 @@ Step(r) ==
             /\ UNCHANGED <<o, q, ebad>>
       [] r.ev = "FormatFail" ->
             /\ ev' = [ev EXCEPT !.fmtFailed = @ \cup {r.e}]
+            /\ ebad' = ebad \cup Flag(r.e \notin q.sent, "FormatFailDiscarded")
+            /\ UNCHANGED <<o, q>>
+      \* an inert emitter discards what it is given as a whole: nothing is handed to a channel
+      \* (and nothing it was given is owed by a later flush)
+      [] r.ev = "Discard" ->
+            /\ ev' = [ev EXCEPT !.inertDiscarded = @ \cup {r.e}]
             /\ ebad' = ebad \cup Flag(r.e \notin q.sent, "FormatFailDiscarded")
             /\ UNCHANGED <<o, q>>
       [] r.ev = "QLen" ->
